@@ -947,7 +947,7 @@ func init() {
 		Explain: "Structural necessary conditions of the n-bit word codec (DESIGN.md 5/C08), strengthened beyond the table clause: BitWord[k] is built for width k and newBW derives byteCap/wordMask from that one width; Get's byte index, MSB-first shift and mask; FromStr's allocation, destination index and shift for every (i,j); ToStr's allocation, accumulate/pad structure and guard; FirstDiff's word counts, clamps, scan range and difference test; element-wise FromStrs/ToStrs; results fresh (E1).",
 		NotDec:  []string{"that Get and FromStr agree numerically for every width (follows from the two decided formulas but the algebra is not machine-checked)", "behaviour for widths not dividing 8 (outside the property)"},
 		Trusted: []string{"go/ssa construction", "go/types constant folding for the BitWord literal"},
-		Quick:   []Config{cfgDefault}, Thorough: []Config{cfgDefault, cfg386},
+		Quick:   []Config{cfgDefault, cfg386}, Thorough: []Config{cfgDefault, cfg386},
 		Run: runC08,
 	})
 }
